@@ -225,7 +225,9 @@ def strategy_relocate(draw, tier):
                                     tfrec_weight=1,
                                     max_ops=3,
                                     busy=True,
-                                    hashes=st.just(["sha256", "xxh64"])))
+                                    hashes=st.sampled_from(
+                                        [[], [], ["sha256"],
+                                         ["sha256", "xxh64"]])))
     case["target"] = draw(st.lists(name_part, min_size=1, max_size=3))
     case["mode"] = draw(st.sampled_from(["copy", "move"]))
     case["open"] = draw(st.sampled_from(["abs", "rel", "rel-up", "rel-deep"]))
